@@ -37,15 +37,69 @@ LENIENT = {'arb-vertex', 'lat-odd'}
 
 def plan(tier):
     q = tier == 'quick'
-    return [('fault', 1200 if q else 7000, {})]
+    return [('fault', 1200 if q else 7000, {}), ('latarg', 600 if q else 12000, {})]
 
 
 def search_plan(tier, disagreements):
     return [('fault', 1500 if tier == 'quick' else 8000, {})]
 
 
+def latarg_case(seed, rng, ctx):
+    """main.parse_lattice on generated --lattice options (well-formed and malformed in every way the function
+    names) vs the Lean model (Text/LatticeArg.lean): the same dictionary, or the same kind of complaint"""
+    from .. import lean
+    impl.ensure()
+    from t4_geom_convert.main import parse_lattice
+
+    def num():
+        m = rng.random()
+        v = str(rng.choice([0, 1, 2, 5, 10, 200, 5902, -1, -4, 17]))
+        if m < 0.92:
+            return v
+        return rng.choice([' ' + v, v + ' ', '+' + v.lstrip('-'), '1_0', '_1', '1__0', '1_', '', '-', '+', '--1', '+-2', '1.0',
+                           '6.022e23', 'three', '0x10', '1 2', '\t7', '٣'.encode('ascii', 'ignore').decode() or '3', '-0', '007'])
+
+    def rng_():
+        m = rng.random()
+        if m < 0.93:
+            return num() + ':' + num()
+        return rng.choice([num(), num() + ':' + num() + ':' + num(), ':', '', num() + '::' + num(), ':' + num()])
+    opts = []
+    for _ in range(rng.randint(1, 3)):
+        m = rng.random()
+        n = rng.choice([1, 2, 3]) if m < 0.93 else rng.choice([0, 4, 5])
+        parts = [num()] + [rng_() for _ in range(n)]
+        o = ','.join(parts)
+        if rng.random() < 0.05:
+            o = rng.choice(['malformed', '', ',', '100,', ',0:1'])
+        opts.append(o)
+    if rng.random() < 0.2 and opts:
+        opts.append(opts[0].split(',')[0] + ',0:1')        # the same cell again
+    try:
+        d = parse_lattice(list(opts))
+        code = 'ok ' + ' '.join('%d=%s' % (c, ','.join('%d:%d' % (a, b) for a, b in lb.bounds)) for c, lb in d.items())
+    except ValueError as ex:
+        msg = str(ex)
+        kind = ('no-ranges' if msg.startswith('no ranges') else 'too-many' if msg.startswith('too many') else
+                'cell-not-int' if msg.startswith('cell number') else 'need-two' if msg.startswith('needs exactly 2') else
+                'bound-not-int' if msg.startswith('range bound') else 'other:' + msg[:40])
+        code = 'ok error ' + kind
+    except Exception as ex:  # noqa
+        code = 'exc ' + type(ex).__name__
+    model = ctx['drv'].ask('latarg ' + ' '.join(lean.hx(o) for o in opts))
+    key = h(tuple(opts))
+    fails = []
+    if model.strip() != code.strip():
+        fails.append(fail('disagreement', 'parse_lattice(%r): code %s / model %s' % (opts, code[:200], model[:200]),
+                          {'stream': 'latarg'}, {'options': opts}))
+    return dict(hashes=[key], nontrivial_hashes=[key], dist={'latarg:' + (code.split()[2] if code.startswith('ok error') else 'parsed'): 1},
+                sample={'options': opts, 'code': code[:120]}, failures=fails)
+
+
 def run_case(stream, seed, ctx, params):
     rng = random.Random(seed)
+    if stream == 'latarg':
+        return latarg_case(seed, rng, ctx)
     fault = FAULTS[seed % len(FAULTS)]
     args = []
     detail = ''
